@@ -73,6 +73,8 @@ def cases(tier, seed):
         out.append({"k": "lead", "i0": i0, "i1": min(len(items), i0 + 6), "tier": tier})
     for i0 in range(0, len(items), 10):
         out.append({"k": "misc", "i0": i0, "i1": min(len(items), i0 + 10), "tier": tier})
+    out.append({"k": "lead", "twins": True})
+    out.append({"k": "misc", "twins": True})
     return out
 
 
@@ -85,7 +87,10 @@ def prekey(el, names, graded, reverse):
 
 
 def run_case(case, R):
-    items = list(arrays(case.get("tier", "quick")))[case["i0"]:case["i1"]]
+    if case.get("twins"):
+        items = [(tuple(sp["n"]), tuple(sp["s"]), i, sp["d"], sp) for i, sp in enumerate(space.twin_sequence())]
+    else:
+        items = list(arrays(case.get("tier", "quick")))[case["i0"]:case["i1"]]
     for names, shape, rot, kind, sp in items:
         p, m = build_checked(sp), model_of(sp)
         els = m.elements()
